@@ -5,14 +5,31 @@
 //	Q <hex>            | <hex>                    Quote
 //	J <hexlist>        | <hex>                    Join
 //	R <hexlist>        | <ok> <hexlist>          Split(Join(ss))
-//	N <frag> <hex> <ops> | n<ok>:<hex text>:<complete>;r<hex rest>;…   Scanner session; ops over {n,r};
-//	                     frag = reader fragmentation (0 whole, k>0 chunks of k bytes, -k seeded random)
+//	H <hexlist>        | <hexlist>;<hexlist>     hold: Quote of every element, then Join of every
+//	                                              non-empty prefix; ALL results are kept and only read
+//	                                              after the last call (and after a GC for some inputs),
+//	                                              so a result that aliases a pooled buffer shows
+//	N <frag> <hex> <ops> | n<ok>:<hex text>:<complete>;r<hex rest>;…   Scanner session
+//
+// Session ops: n Next (records result, Text, Complete), r Rest (records every byte read from it),
+// e Err (e0 nil, e1 io.EOF, e2 other), z Reset to a fresh reader of the same input (records z),
+// s Scanner.Split (s<hexlist>:<hex text>:<complete>, Text and Complete taken after the call), a Each
+// to the end, b/c Each whose callback returns false at the first/second token
+// (a|b|c<hexlist of the tokens passed to the callback>:<hex text>:<complete>).
+// The strings returned by Text and passed to Each's callback are kept and read at the end of the
+// session.
+//
+// frag = how the reader fragments the input: [e][z]<k>.  k = 0: as much as the caller's buffer
+// takes; k > 0: chunks of k bytes; k < 0: seeded random chunks of 1..5 bytes.  Flag e: the last
+// chunk is returned together with io.EOF (n > 0 and io.EOF in one call); flag z: every chunk is
+// preceded by one to three reads that return (0, nil).
 //
 // A panic inside the package is recorded as the output PANIC (after the observations made so far).
 package main
 
 import (
 	"io"
+	"runtime"
 	"strconv"
 	"strings"
 	"sync"
@@ -22,15 +39,32 @@ import (
 )
 
 type fragReader struct {
-	s    string
-	k    int
-	rng  *tr.Rand
-	hits int
+	s       string
+	k       int
+	withEOF bool // flag e
+	zeros   bool // flag z
+	rng     *tr.Rand
+	pendZ   int
+	primed  bool
 }
 
 func (f *fragReader) Read(p []byte) (int, error) {
 	if len(f.s) == 0 {
 		return 0, io.EOF
+	}
+	if len(p) == 0 {
+		return 0, nil
+	}
+	if f.zeros {
+		if !f.primed {
+			f.pendZ = 1 + f.rng.Intn(3)
+			f.primed = true
+		}
+		if f.pendZ > 0 {
+			f.pendZ--
+			return 0, nil
+		}
+		f.primed = false
 	}
 	n := len(p)
 	switch {
@@ -42,7 +76,25 @@ func (f *fragReader) Read(p []byte) (int, error) {
 	n = min(n, len(f.s))
 	copy(p, f.s[:n])
 	f.s = f.s[n:]
+	if f.withEOF && len(f.s) == 0 {
+		return n, io.EOF
+	}
 	return n, nil
+}
+
+func newFrag(desc, src string) *fragReader {
+	fr := &fragReader{s: src}
+	for len(desc) > 0 && (desc[0] == 'e' || desc[0] == 'z') {
+		if desc[0] == 'e' {
+			fr.withEOF = true
+		} else {
+			fr.zeros = true
+		}
+		desc = desc[1:]
+	}
+	fr.k, _ = strconv.Atoi(desc)
+	fr.rng = tr.NewRand(uint64(len(src))*31 + uint64(int64(-fr.k)))
+	return fr
 }
 
 // exec runs one case; a panic of the package (e.g. a transducer table that no longer covers a
@@ -53,6 +105,30 @@ func exec(in string) (out string) {
 		return strings.Join(append(partial, "PANIC"), ";")
 	}
 	return out
+}
+
+// a held observation: the strings are converted to hex only when the session is over
+type held struct {
+	pre     string
+	toks    []string // printed as a hex list when hasToks
+	hasToks bool
+	txt     string // printed as hex when hasTxt
+	hasTxt  bool
+	post    string
+}
+
+func (h held) String() string {
+	out := h.pre
+	if h.hasToks {
+		out += tr.HexList(h.toks)
+		if h.hasTxt {
+			out += ":"
+		}
+	}
+	if h.hasTxt {
+		out += tr.Hex(h.txt)
+	}
+	return out + h.post
 }
 
 func exec1(in string, partial *[]string) string {
@@ -70,24 +146,79 @@ func exec1(in string, partial *[]string) string {
 	case "R":
 		fs, ok := shell.Split(shell.Join(tr.UnHexList(f[1])))
 		return tr.B(ok) + " " + tr.HexList(fs)
+	case "H":
+		ss := tr.UnHexList(f[1])
+		qs := make([]string, 0, len(ss))
+		js := make([]string, 0, len(ss))
+		for _, s := range ss {
+			qs = append(qs, shell.Quote(s))
+		}
+		for i := range ss {
+			js = append(js, shell.Join(ss[:i+1]))
+		}
+		if len(ss)%3 == 0 {
+			runtime.GC() // empties the pools; a result must not depend on the buffer it was built in
+			_ = shell.Quote(" overwrite the pooled buffer once more ")
+		}
+		return tr.HexList(qs) + ";" + tr.HexList(js)
 	case "N":
-		k, _ := strconv.Atoi(f[1])
 		src := tr.UnHex(f[2])
-		fr := &fragReader{s: src, k: k, rng: tr.NewRand(uint64(len(src))*31 + uint64(-k))}
+		fr := newFrag(f[1], src)
 		sc := shell.NewScanner(fr)
-		var out []string
-		defer func() { *partial = out }()
-		for _, op := range f[3] {
+		var obs []held
+		flush := func() []string {
+			out := make([]string, len(obs))
+			for i, h := range obs {
+				out[i] = h.String()
+			}
+			return out
+		}
+		defer func() { *partial = flush() }()
+		ops := ""
+		if len(f) > 3 {
+			ops = f[3]
+		}
+		each := func(tag string, stopAt int) {
+			var toks []string
+			sc.Each(func(tok string) bool {
+				toks = append(toks, tok)
+				return len(toks) != stopAt
+			})
+			obs = append(obs, held{pre: tag, toks: toks, hasToks: true, txt: sc.Text(), hasTxt: true, post: ":" + tr.B(sc.Complete())})
+		}
+		for _, op := range ops {
 			switch op {
 			case 'n':
 				ok := sc.Next()
-				out = append(out, "n"+tr.B(ok)+":"+tr.Hex(sc.Text())+":"+tr.B(sc.Complete()))
+				obs = append(obs, held{pre: "n" + tr.B(ok) + ":", txt: sc.Text(), hasTxt: true, post: ":" + tr.B(sc.Complete())})
 			case 'r':
 				rest, _ := io.ReadAll(sc.Rest())
-				out = append(out, "r"+tr.Hex(string(rest)))
+				obs = append(obs, held{pre: "r", txt: string(rest), hasTxt: true})
+			case 'e':
+				switch sc.Err() {
+				case nil:
+					obs = append(obs, held{pre: "e0"})
+				case io.EOF:
+					obs = append(obs, held{pre: "e1"})
+				default:
+					obs = append(obs, held{pre: "e2"})
+				}
+			case 'z':
+				fr = newFrag(f[1], src)
+				sc.Reset(fr)
+				obs = append(obs, held{pre: "z"})
+			case 's':
+				toks := sc.Split()
+				obs = append(obs, held{pre: "s", toks: toks, hasToks: true, txt: sc.Text(), hasTxt: true, post: ":" + tr.B(sc.Complete())})
+			case 'a':
+				each("a", 0)
+			case 'b':
+				each("b", 1)
+			case 'c':
+				each("c", 2)
 			}
 		}
-		return strings.Join(out, ";")
+		return strings.Join(flush(), ";")
 	}
 	return "?"
 }
@@ -95,6 +226,21 @@ func exec1(in string, partial *[]string) string {
 var classAlpha = []byte{'a', ' ', '\n', '\\', '\'', '"'}
 var wideAlpha = []byte{'a', ' ', '\t', '\n', '\\', '\'', '"', 0x80, 0, ';'}
 var metaAlpha = []byte{'a', ' ', '\'', '"', '\\', '$', '*', '\n', '\t', '#', '~', '=', ';', '`', 0x80, '!', '{', '-', '%', '[', '?', '|', '&', '<', '>', '(', ')', 0xff}
+
+// Every code point with the Unicode White_Space property, as UTF-8, plus the ASCII controls that
+// unicode.IsSpace accepts and the two Latin-1 spaces as raw (invalid UTF-8) bytes.  Only space,
+// tab and newline separate words for the package and for a POSIX shell; everything else here is
+// an ordinary byte sequence.
+var uniSpaces = []string{
+	"\v", "\f", "\r", "\x85", "\xa0", "\u0085", "\u00a0", "\u1680",
+	"\u2000", "\u2001", "\u2002", "\u2003", "\u2004", "\u2005", "\u2006", "\u2007", "\u2008", "\u2009", "\u200a",
+	"\u2028", "\u2029", "\u202f", "\u205f", "\u3000",
+	"\u180e", "\u200b", "\ufeff", "\x1c", "\x1d", "\x1e", "\x1f", // not White_Space, but treated as blank by some libraries
+}
+
+// fragmentations every session is run under
+var allFrags = []string{"0", "1", "2", "3", "-1", "e0", "e1", "e2", "z0", "z1", "ez3"}
+var bigFrags = []string{"0", "e0", "z0", "4096", "4095", "4097", "e4096", "1", "-1", "ez7"}
 
 // allStrings calls f on every string over alpha of length 0..maxLen, shortest first (so that the
 // first failing case reported is a minimal one).
@@ -127,10 +273,64 @@ func randString(r *tr.Rand, alpha []byte, maxLen int) string {
 	return string(b)
 }
 
+// a long token: quoted or escaped text of about n bytes that the scanner has to carry over several
+// refills of bufio's 4096-byte buffer
+func bigToken(r *tr.Rand, n int) string {
+	var sb strings.Builder
+	switch r.Intn(4) {
+	case 0: // one double-quoted stretch with escapes
+		sb.WriteByte('"')
+		for sb.Len() < n {
+			switch r.Intn(12) {
+			case 0:
+				sb.WriteString("\\\"")
+			case 1:
+				sb.WriteString("\\\\")
+			case 2:
+				sb.WriteString("\\\n")
+			case 3:
+				sb.WriteString("\\x")
+			case 4:
+				sb.WriteString(" \t\n'")
+			default:
+				sb.WriteString("abcdefgh"[:1+r.Intn(8)])
+			}
+		}
+		sb.WriteByte('"')
+	case 1: // single quotes
+		sb.WriteByte('\'')
+		for sb.Len() < n {
+			const body = "xy \\\"\n\t z"
+			sb.WriteString(body[:1+r.Intn(len(body))])
+		}
+		sb.WriteByte('\'')
+	case 2: // bare word with escapes and continuations
+		for sb.Len() < n {
+			switch r.Intn(8) {
+			case 0:
+				sb.WriteString("\\ ")
+			case 1:
+				sb.WriteString("\\\n")
+			case 2:
+				sb.WriteString("''")
+			case 3:
+				sb.WriteString("\"\"")
+			default:
+				sb.WriteString("w0123456"[:1+r.Intn(8)])
+			}
+		}
+	default: // alternating quoting forms glued into one word
+		for sb.Len() < n {
+			sb.WriteString("'a b'\"c d\"e\\ f")
+		}
+	}
+	return sb.String()
+}
+
 func special(s string) bool { return strings.ContainsAny(s, " \t\n\\'\"|&;<>()$`*?[#~=%") }
 
 func main() {
-	tr.Main("C15: every single byte, all strings to length 3 (quick) / 4 (thorough) over a 28-symbol metacharacter alphabet for Quote and Split(Join), random lists of random strings, concurrent calls so pooled buffers are reused; C16: every byte value alone, inside a word and inside each kind of quoting, all strings to length 3 (quick) / 4 (thorough) over a 10-symbol alphabet with both blanks, NUL and a non-ASCII byte, all strings over the six tokenizer classes to length 6 (quick) / 8 (thorough) for Split, scanner sessions under every fragmentation with Rest at every point, random long inputs. A case is non-trivial when its input contains a quoting character, separator or metacharacter; distinct = distinct input lines.",
+	tr.Main("C15: every single byte, all strings to length 3 (quick) / 4 (thorough) over a 28-symbol metacharacter alphabet for Quote and Split(Join), random lists of random strings, Unicode white space, hold cases (every result of a series of Quote/Join calls is read only after the last call, some after a GC), concurrent workers that read their results a window of calls later; C16: every byte value alone, inside a word and inside each kind of quoting, all strings to length 3 (quick) / 4 (thorough) over a 10-symbol alphabet with both blanks, NUL and a non-ASCII byte, all strings over the six tokenizer classes to length 6 (quick) / 8 (thorough) for Split, every Unicode white-space code point as UTF-8, scanner sessions under eleven reader fragmentations (fixed and random chunks, a last chunk delivered together with io.EOF, empty reads) with Rest after every number of Next calls under every fragmentation, Err/Reset/Scanner.Split/Each sessions, random long inputs, inputs and single tokens longer than bufio's buffer. A case is non-trivial when its input contains a quoting character, separator or metacharacter; distinct = distinct input lines.",
 		exec, func(g *tr.G) {
 			switch g.Prop {
 			case "C15":
@@ -141,14 +341,47 @@ func main() {
 				}
 				g.Emit("J .", false, "empty-list")
 				g.Emit("R .", false, "empty-list")
+				g.Emit("H .", false, "empty-list")
 				g.Emit("R "+tr.HexList([]string{""}), true, "empty-string")
 				g.Emit("R "+tr.HexList([]string{"", ""}), true, "empty-string")
+				g.Emit("J "+tr.HexList([]string{"", "", ""}), true, "empty-string")
+				g.Emit("H "+tr.HexList([]string{"", "a b", "", "'"}), true, "empty-string")
+				for _, u := range uniSpaces {
+					for _, s := range []string{u, "a" + u + "b", u + "a", "a" + u, "a b" + u, u + "'"} {
+						g.Emit("Q "+tr.Hex(s), true, "unicode-space")
+						g.Emit("R "+tr.HexList([]string{s, u}), true, "unicode-space")
+					}
+				}
 				allStrings(metaAlpha, g.Scale(3, 4), func(s string) {
 					g.Emit("Q "+tr.Hex(s), special(s), "exhaustive-meta")
 					parts := strings.Split(s, "a")
 					g.Emit("J "+tr.HexList(parts), special(s))
 					g.Emit("R "+tr.HexList(parts), special(s))
 				})
+				// hold: all short lists over a small alphabet of strings that take each path of
+				// Quote (copied unchanged, wrapped, escaped quote, empty), then random ones
+				holdAlpha := []string{"", "a", "a b", "'", "it's", "x;y", "~", "plain", "a'b c"}
+				var rec func(cur []string, n int)
+				rec = func(cur []string, n int) {
+					if n == 0 {
+						g.Emit("H "+tr.HexList(cur), true, "hold")
+						return
+					}
+					for _, a := range holdAlpha {
+						rec(append(cur[:len(cur):len(cur)], a), n-1)
+					}
+				}
+				for l := 1; l <= g.Scale(3, 4); l++ {
+					rec(nil, l)
+				}
+				for i := 0; i < g.Scale(2000, 60000); i++ {
+					n := 1 + g.R.Intn(12)
+					ss := make([]string, n)
+					for j := range ss {
+						ss[j] = randString(g.R, metaAlpha, 1+g.R.Intn(40))
+					}
+					g.Emit("H "+tr.HexList(ss), true, "hold-random")
+				}
 				for i := 0; i < g.Scale(20000, 400000); i++ {
 					n := g.R.Intn(5)
 					ss := make([]string, n)
@@ -161,7 +394,8 @@ func main() {
 						g.Emit("Q "+tr.Hex(ss[0]), special(ss[0]))
 					}
 				}
-				// pooled buffers under concurrency: results must still be the sequential ones
+				// pooled buffers under concurrency: every worker keeps the results of a window of
+				// calls and reads them only when the window is full; they must be the sequential ones
 				var wg sync.WaitGroup
 				var mu sync.Mutex
 				for w := 0; w < 8; w++ {
@@ -169,15 +403,46 @@ func main() {
 					r := tr.NewRand(g.Seed*977 + uint64(w))
 					go func() {
 						defer wg.Done()
-						for i := 0; i < g.Scale(500, 20000); i++ {
-							ss := []string{randString(r, metaAlpha, 20), randString(r, metaAlpha, 3)}
-							in := "R " + tr.HexList(ss)
-							out := exec(in)
-							in2 := "J " + tr.HexList(ss)
-							out2 := exec(in2)
+						const window = 64
+						type pend struct{ in, out string }
+						for i := 0; i < g.Scale(8, 300); i++ {
+							var ps []pend
+							for j := 0; j < window; j++ {
+								ss := []string{randString(r, metaAlpha, 20), randString(r, metaAlpha, 3)}
+								switch j % 3 {
+								case 0:
+									in := "Q " + tr.Hex(ss[0])
+									var out string
+									if p := tr.Catch(func() { out = shell.Quote(ss[0]) }); p != "" {
+										out = "PANIC"
+									}
+									ps = append(ps, pend{in, out})
+								case 1:
+									in := "J " + tr.HexList(ss)
+									var out string
+									if p := tr.Catch(func() { out = shell.Join(ss) }); p != "" {
+										out = "PANIC"
+									}
+									ps = append(ps, pend{in, out})
+								default:
+									in := "R " + tr.HexList(ss)
+									ps = append(ps, pend{in, "=" + exec(in)})
+								}
+								if j%16 == 5 {
+									runtime.Gosched()
+								}
+							}
 							mu.Lock()
-							g.W.Case(in, out, true, "concurrent")
-							g.W.Case(in2, out2, true, "concurrent")
+							for _, p := range ps {
+								switch {
+								case p.out == "PANIC":
+									g.W.Case(p.in, "PANIC", true, "concurrent")
+								case strings.HasPrefix(p.out, "="):
+									g.W.Case(p.in, p.out[1:], true, "concurrent")
+								default:
+									g.W.Case(p.in, tr.Hex(p.out), true, "concurrent-held")
+								}
+							}
 							mu.Unlock()
 						}
 					}()
@@ -191,39 +456,104 @@ func main() {
 					g.Emit("S "+tr.Hex("a"+c+"b"), special(c), "every-byte")
 					g.Emit("S "+tr.Hex("\""+c+"\" '"+c+"' \\"+c), true, "every-byte")
 				}
+				// Unicode white space is not a separator
+				for _, u := range uniSpaces {
+					for _, s := range []string{u, "a" + u + "b", u + "a", "a" + u, " " + u + " ", "a" + u + " b", u + u, "a b" + u + "c d", "\"" + u + "\"", "\\" + u} {
+						g.Emit("S "+tr.Hex(s), true, "unicode-space")
+					}
+					g.Emit("N 0 "+tr.Hex("a"+u+"b "+u)+" nnn", true, "unicode-space")
+					g.Emit("N 1 "+tr.Hex("a"+u+"b "+u)+" nrn", true, "unicode-space")
+				}
 				allStrings(wideAlpha, g.Scale(3, 4), func(s string) {
 					g.Emit("S "+tr.Hex(s), special(s), "exhaustive-wide")
 				})
 				allStrings(classAlpha, g.Scale(6, 8), func(s string) {
 					g.Emit("S "+tr.Hex(s), special(s), "exhaustive-class")
 				})
-				sess := func(s string) {
-					for _, k := range []int{0, 1, 2, 3, -1} {
+				sess := func(s string, frags []string) {
+					nn := len(s)/2 + 3
+					for _, k := range frags {
 						// full scan, then extra Next calls past the end
-						g.Emit("N "+strconv.Itoa(k)+" "+tr.Hex(s)+" "+strings.Repeat("n", len(s)/2+3), special(s), "session")
-					}
-					// Rest after every number of Next calls
-					for i := 0; i <= len(s)/2+1 && i < 6; i++ {
-						g.Emit("N "+strconv.Itoa(g.R.Range(-1, 2))+" "+tr.Hex(s)+" "+strings.Repeat("n", i)+"rnn", special(s), "rest")
+						g.Emit("N "+k+" "+tr.Hex(s)+" "+strings.Repeat("n", nn), special(s), "session")
+						// Rest after every number of Next calls, under this fragmentation
+						for i := 0; i <= len(s)/2+1 && i < 6; i++ {
+							g.Emit("N "+k+" "+tr.Hex(s)+" "+strings.Repeat("n", i)+"rnn", special(s), "rest")
+						}
 					}
 				}
-				allStrings(classAlpha, g.Scale(4, 5), sess)
+				pickFrags := func(n int) []string {
+					out := make([]string, n)
+					for i := range out {
+						out[i] = tr.Pick(g.R, allFrags)
+					}
+					return out
+				}
+				allStrings(classAlpha, g.Scale(3, 4), func(s string) { sess(s, allFrags) })
+				// one length further, three fragmentations per string
+				allStrings(classAlpha, g.Scale(4, 5), func(s string) {
+					if len(s) == g.Scale(4, 5) {
+						sess(s, pickFrags(3))
+					}
+				})
+				// Err, Reset, Scanner.Split and Each in every position of short sessions
+				opAlpha := []byte("nresabcz")
+				allStrings(classAlpha[:5], 3, func(s string) {
+					if len(s) < 2 {
+						return
+					}
+					allStrings(opAlpha, 2, func(ops string) {
+						if ops == "" {
+							return
+						}
+						g.Emit("N "+tr.Pick(g.R, allFrags)+" "+tr.Hex(s+" b")+" "+ops+"ne", special(s), "ops")
+					})
+				})
+				for i := 0; i < g.Scale(4000, 80000); i++ {
+					s := randString(g.R, classAlpha, 24)
+					nops := 1 + g.R.Intn(8)
+					ops := make([]byte, nops)
+					for j := range ops {
+						if g.R.Chance(1, 2) {
+							ops[j] = 'n'
+						} else {
+							ops[j] = tr.Pick(g.R, opAlpha)
+						}
+					}
+					g.Emit("N "+tr.Pick(g.R, allFrags)+" "+tr.Hex(s)+" "+string(ops), true, "ops-random")
+				}
 				for i := 0; i < g.Scale(3000, 100000); i++ {
 					s := randString(g.R, classAlpha, 40)
 					g.Emit("S "+tr.Hex(s), true, "random-long")
 					if i%5 == 0 {
-						sess(s)
+						sess(s, pickFrags(2))
 					}
 				}
-				// inputs longer than bufio's 4096-byte buffer
-				for i := 0; i < g.Scale(5, 200); i++ {
+				// inputs longer than bufio's 4096-byte buffer: Split, a full scan and Rest at several
+				// depths under the fragmentations that align with, straddle or ignore the buffer size
+				for i := 0; i < g.Scale(6, 150); i++ {
 					var sb strings.Builder
 					for sb.Len() < 9000 {
 						sb.WriteString(randString(g.R, classAlpha, 30))
 					}
 					s := sb.String()
 					g.Emit("S "+tr.Hex(s), true, "over-buffer")
-					g.Emit("N -1 "+tr.Hex(s)+" nnnnnrn", true, "over-buffer")
+					for _, k := range bigFrags {
+						depth := g.R.Intn(40)
+						if g.R.Chance(1, 3) {
+							depth = 200 + g.R.Intn(600)
+						}
+						g.Emit("N "+k+" "+tr.Hex(s)+" "+strings.Repeat("n", depth)+"rn", true, "over-buffer-rest")
+					}
+					g.Emit("N "+tr.Pick(g.R, bigFrags)+" "+tr.Hex(s)+" nnnsne", true, "over-buffer")
+				}
+				// single tokens that span several refills, followed by more input; Rest right after
+				for i := 0; i < g.Scale(8, 40); i++ {
+					tok := bigToken(g.R, 4000+g.R.Intn(g.Scale(9000, 14000)))
+					s := randString(g.R, classAlpha, 6) + " " + tok + "  " + randString(g.R, classAlpha, 20)
+					g.Emit("S "+tr.Hex(s), true, "big-token")
+					for _, k := range bigFrags {
+						g.Emit("N "+k+" "+tr.Hex(s)+" "+strings.Repeat("n", 1+g.R.Intn(4))+"rn", true, "big-token")
+					}
 				}
 			}
 		})
